@@ -103,10 +103,11 @@ func (g *GetDeviceIDRsp) DecodeFromBytes(data []byte, df gopacket.DecodeFeedback
 	g.Manufacturer = iana.Enterprise(uint32(data[6]) | uint32(data[7])<<8 |
 		uint32(data[8])<<16)
 	g.Product = binary.LittleEndian.Uint16(data[9:11])
+	// clear first: fewer than 4 bytes may be present, and the layer may have
+	// been used to decode an earlier response
+	g.AuxiliaryFirmwareRevision = [4]byte{}
 	if len(data) > 11 {
 		copy(g.AuxiliaryFirmwareRevision[:], data[11:])
-	} else {
-		g.AuxiliaryFirmwareRevision = [4]byte{}
 	}
 	return nil
 }
